@@ -265,6 +265,44 @@ func judgeC13Inner(rec *stats.Rec, c c13Case, cli string) (string, string) {
 				}
 			}
 		}
+	case "cli-unknown-combo":
+		// an unknown value in one selector flag is rejected whatever valid selector flags accompany it, in either order
+		if cli == "" {
+			return "", ""
+		}
+		valid := map[string]string{"-includeSources=": "RFC5280,CABF_BR", "-excludeSources=": "ETSI_ESI", "-includeNames=": "e_ca_country_name_missing", "-excludeNames=": "e_ca_country_name_missing"}
+		for _, bad := range []string{"-includeSources=", "-excludeSources=", "-includeNames=", "-excludeNames="} {
+			for _, good := range []string{"-includeSources=", "-excludeSources=", "-includeNames=", "-excludeNames="} {
+				if good == bad {
+					continue
+				}
+				for _, order := range [][]string{{bad + c.Token, good + valid[good]}, {good + valid[good], bad + c.Token}} {
+					res := runCLI(cli, nil, "", nil, append(order, "-list-lints-source")...)
+					if res.Exit == 0 {
+						return "cli-unknown-accepted|combo|" + strings.Trim(bad, "-=") + "+" + strings.Trim(good, "-="), fmt.Sprintf("zlint %s -list-lints-source exits 0 although %s names something unknown", strings.Join(order, " "), strings.Trim(bad, "-="))
+					}
+				}
+			}
+		}
+	case "glued-names":
+		// a single name that is the comma-joined form of a valid list is one unknown name - before and after the list itself was used
+		var parts []string
+		_ = json.Unmarshal([]byte(c.Token), &parts)
+		glued := strings.Join(parts, ",")
+		for round := 0; round < 2; round++ {
+			if _, err := g.Filter(lint.FilterOptions{IncludeNames: []string{glued}}); err == nil {
+				return "unknown-name-accepted|glued-include", fmt.Sprintf("IncludeNames [%q] (one name containing commas) accepted (round %d)", glued, round)
+			}
+			if _, err := g.Filter(lint.FilterOptions{ExcludeNames: []string{glued}}); err == nil {
+				return "unknown-name-accepted|glued-exclude", fmt.Sprintf("ExcludeNames [%q] (one name containing commas) accepted (round %d)", glued, round)
+			}
+			if _, err := g.Filter(lint.FilterOptions{IncludeNames: parts}); err != nil {
+				return "listed-name-rejected|include", "valid list rejected: " + err.Error()
+			}
+			if _, err := g.Filter(lint.FilterOptions{ExcludeNames: parts}); err != nil {
+				return "listed-name-rejected|exclude", "valid list rejected: " + err.Error()
+			}
+		}
 	case "cli-unknown":
 		if cli == "" {
 			return "", ""
@@ -456,6 +494,34 @@ func TestC13(t *testing.T) {
 			rec.Sample(c)
 		}
 	})
+	// enumerated: unknown + valid selector flags together; glued names around the use of the list itself
+	if shard, _ := stats.Shard(); shard == 0 {
+		for _, tok := range []string{"NO_SUCH_SOURCE", "e_no_such_lint"} {
+			c := c13Case{What: "cli-unknown-combo", Token: tok}
+			rec.Eval()
+			rec.Class(c.What)
+			if sig, msg := judgeC13(rec, c, cli); msg != "" {
+				if rec.Report("c13", sig, msg, c) {
+					t.Errorf("c13 %s: %s", sig, msg)
+				}
+			}
+		}
+	}
+	for i := 0; i+2 < len(names); i += 37 {
+		if !stats.Mine(i / 37) {
+			continue
+		}
+		b, _ := json.Marshal(names[i : i+2+i%3])
+		c := c13Case{What: "glued-names", Token: string(b)}
+		rec.Eval()
+		rec.Class(c.What)
+		rec.NT(stats.HashS(c.What, c.Token))
+		if sig, msg := judgeC13(rec, c, cli); msg != "" {
+			if rec.Report("c13", sig, msg, c) {
+				t.Errorf("c13 %s: %s", sig, msg)
+			}
+		}
+	}
 	c13AfterAdditions(t, rec, cli)
 }
 
